@@ -227,9 +227,11 @@ pub fn check_sys(c: &SysCase, rec: &mut Rec) -> Result<(), String> {
     let now_t = |e: &mut crate::host::Emu| e.verif_total_frames() * frame_len + e.verif_frame_clocks() as u64;
     let t_play = now_t(&mut rig.e);
     if c.pre_wait % 3 != 0 {
-        // leave the ROM loader enough of the first block's pilot tone (a data-flag pilot lasts ~100 frames)
+        // leave the ROM loader enough of the first block's pilot tone: it waits about a second after the
+        // first edge and then wants 256 good leader pulse pairs (~66 frames in all); a data-flag pilot
+        // lasts ~100 frames, a header pilot ~250
         let first_flag = blocks.first().and_then(|b| b.first().copied()).unwrap_or(0xFF);
-        let h = if first_flag == 0 { (c.pre_frames % 90) as usize + 10 } else { (c.pre_frames % 45) as usize + 10 };
+        let h = if first_flag == 0 { (c.pre_frames % 90) as usize + 10 } else { (c.pre_frames % 16) as usize + 5 };
         if c.pre_wait % 3 == 1 {
             mach::poke_bytes(&mut rig.e, &mut rig.m, 0x8000, &[0xFB, 0x76, 0x18, 0xFC]);
             mach::set_regs(&mut rig.e, &RegFile { pc: 0x8000, sp: c10::SP0, im: 1, iy: 0x5C3A, iff1: true, iff2: true, ..Default::default() });
@@ -437,7 +439,7 @@ pub fn replay(run: &mut Run, phase: &str, case: &serde_json::Value) -> Result<()
 }
 
 pub const LEVEL: &str = "exploration";
-pub const RULE: &str = "waveform: TAP images of 1..3 blocks (all flag bytes, payload 0..260 bytes across the 128-byte refill boundary, right/wrong checksum) played through the pulse generator (tape asset delivering everything at once or at most 1..255 bytes per read call) with time advanced by a cycled schedule of 1..64 steps of 1..16 T-states (uniform, all-1, all-16, sawtooth, instruction-like mixes); every interval between EAR edges is compared with the nominal list synthesised from the bytes: pilot count 8063 (+-1) for flag 0x00 / >= 3223 otherwise, 667, 735, two equal 855/1710 pulses per bit MSB first for every byte, pause 3.0..4.0 M T; each pulse within [nominal, nominal+32]; count and order exact. rom-loader-real-time: the real ROM LD-BYTES is called (requests as in C10) while the tape plays on the emulator (in half of the cases with the host's fast-load setting switched on: a playing deck must still deliver every block through EAR; in two thirds with the CPU first halted or looping in contended RAM for 10..99 frames (10..54 before a data-flag block, whose pilot is shorter) while the tape plays; a header block read to its end must be over when its nominal duration plus at most 32 T per pulse has passed since PLAY); carry, IX, DE and memory must equal the LD-BYTES model of the block's bytes (which C10 shows fast loading equals). ear-on-every-ula-address: while a block plays, IN from a generated even port address (high byte 0xFF, 0x00, 0xFE, 0xBF or any) must show in bit 6 the level that two bracketing reads of 0x7FFE show (samples where the bracketing reads differ are not judged). non-trivial (waveform) = block with >= 2 distinct bytes, length other than 19/6914, schedule with >= 3 distinct step sizes; (system) every request; distinct = hash of (block bytes, schedule) / (case, request)";
+pub const RULE: &str = "waveform: TAP images of 1..3 blocks (all flag bytes, payload 0..260 bytes across the 128-byte refill boundary, right/wrong checksum) played through the pulse generator (tape asset delivering everything at once or at most 1..255 bytes per read call) with time advanced by a cycled schedule of 1..64 steps of 1..16 T-states (uniform, all-1, all-16, sawtooth, instruction-like mixes); every interval between EAR edges is compared with the nominal list synthesised from the bytes: pilot count 8063 (+-1) for flag 0x00 / >= 3223 otherwise, 667, 735, two equal 855/1710 pulses per bit MSB first for every byte, pause 3.0..4.0 M T; each pulse within [nominal, nominal+32]; count and order exact. rom-loader-real-time: the real ROM LD-BYTES is called (requests as in C10) while the tape plays on the emulator (in half of the cases with the host's fast-load setting switched on: a playing deck must still deliver every block through EAR; in two thirds with the CPU first halted or looping in contended RAM for 10..99 frames (5..20 before a data-flag block, whose pilot is shorter) while the tape plays; a header block read to its end must be over when its nominal duration plus at most 32 T per pulse has passed since PLAY); carry, IX, DE and memory must equal the LD-BYTES model of the block's bytes (which C10 shows fast loading equals). ear-on-every-ula-address: while a block plays, IN from a generated even port address (high byte 0xFF, 0x00, 0xFE, 0xBF or any) must show in bit 6 the level that two bracketing reads of 0x7FFE show (samples where the bracketing reads differ are not judged). non-trivial (waveform) = block with >= 2 distinct bytes, length other than 19/6914, schedule with >= 3 distinct step sizes; (system) every request; distinct = hash of (block bytes, schedule) / (case, request)";
 pub const ASSUMPTIONS: &[&str] = &[
     "pulse generator is driven through the cfg(rustzx_verif) re-export of Tap/TapeImpl; time between toggles is measured at the granularity of the schedule steps",
     "the first pilot pulse of a block may merge with the preceding silence (pilot count tolerance of one)",
